@@ -98,6 +98,14 @@ CLAIMS = {
                  'ungated sinks are recorded as known findings.',
         'technique': 'protocol-sink detection on live-object expressions + CFG edge-dominance (gate) rules + table checks (ast)',
     },
+    'C20': {
+        'level': 'Writer/reader agreement of Project.save()/load() decided as a set equation over the source (attributes assigned on a Project '
+                 'minus popped keys == constructor keywords; nothing filtered; same version and file), coercion of every path-like setting to '
+                 'JSON-serialisable str on every branch, the ordered composition prefixed + base + suffixed on private copies with a '
+                 'first-wins order-preserving de-duplication and path-containment (not string-prefix) boundary of the ancestor walk, and a '
+                 'who-may-read inventory of the host\'s sys.path. Two genuine round-trip defects were repaired.',
+        'technique': 'writer/reader table agreement + def-use shape rules + CFG reachability + who-may-read inventory (ast)',
+    },
 }
 
 WIP = 'check not built yet in this session (work in progress; see DESIGN.md section 4 for the planned rules)'
